@@ -47,6 +47,10 @@ ASSUMPTIONS = [
     "runs ending in Stack overflow or a timeout (implementation) / fuel (model) are not compared",
     "never-read theorem: the unpruned run must not end in the model's variable-missing panic sites (scoping is C04/C06) — the oracle checks that the implementation does not panic",
     "dead-store theorem (round 2): same exclusions as the never-read theorem (fuel, the three variable-missing panic sites of the less-pruned run)",
+    "round 4: a dropped ASSIGNMENT / re-declaration whose right-hand side calls a pure, trap-free user function is covered (class C, theorem "
+    "C03_prune_sound_five_classes: besides fuel and the variable-missing sites, the panic sites PFuncMissing/PArgCount/PParamRange/PBreakEscapes of the "
+    "less-pruned run are not compared; C03_prune_sound_five_classes_wf discharges all panic sites with C06's wf_static/wf_scoped, leaving fuel only); "
+    "a pruned FIRST declaration with such a right-hand side is not (statement C03_first_declaration_with_call_statement_partial)",
     "round 3: the only plan entries the shipped analysis emits that no theorem covers are stores whose right-hand side calls a USER function "
     "(pruned when the callee's transitive class is PureNoTrap and it has no transitive capture write; the analysis does not require the callee to "
     "terminate: a pruned run can end where the plain run exhausts the stack or never ends - not compared, resource exhaustion) and command(..) "
@@ -69,7 +73,10 @@ CORPUS = [
     (KEY_MEMBER + "/assign", 'make x get [1]\nmake u get 0\nu get x.len\nshout("@1@" add to_string(2))\n'),
     (KEY_MEMBER + "/array", 'make x get 3\nmake u get [1, x.abs]\nshout("@1@" add to_string(2))\n'),
     # boundary, not compared (resource exhaustion): the analysis does not ask a pruned callee to terminate
-    ("pure-callee-deep-recursion", 'do f(n) start\n  return f(n add 1)\nend\nmake u get f(0)\nshout("@1@" add to_string(2))\n'),
+    # boundary (round 4), not compared: the pruned callee never returns; the checker accepts the entry (class C), the
+    # theorem's hypothesis "the less-pruned run does not exhaust its fuel" is what excludes it
+    ("pure-callee-recursion-assignment", 'do f() start\n  return f()\nend\nmake u get 0\nu get f()\nshout("@1@" add to_string(2))\n'),
+    ("pure-callee-deep-recursion", 'do f() start\n  return f()\nend\nmake u get f()\nshout("@1@" add to_string(2))\n'),
     (KEY_KILL, 'make x get 1\ndo m(c) start\n  if to say (c) start x get 2 end\nend\nx get 5\nm(false)\nshout("@1@" add to_string(x))\n'),
     (KEY_IMPURE, 'make x get 1\ndo set_x() start\n  x get 2\n  return 0\nend\nmake y get set_x()\nshout("@1@" add to_string(x))\n'),
     (KEY_TYPEMIS, 'make x get 1\nif to say (true) start x get "s" end\nmake u get x minus 1\nshout("@1@" add to_string(2))\n'),
@@ -1457,6 +1464,16 @@ def run_planok(env, name, recs, order):
             v["checked3"] = (c1 == "1", c2 == "1")
             v["acc3"] = set(parts[1].split()[1:])
             v["residual3"] = (rs[1:fi], rs[fi + 1:])
+        elif l.startswith("verdict4 ") and cur is not None and res.get(cur):
+            # round 4: plan_ok4 = plan_ok3 with right-hand sides that call pure, trap-free user functions
+            parts = [p.strip() for p in l[9:].split("|")]
+            c1, c2 = parts[0].split()
+            rs = parts[2].split()
+            fi = rs.index("F")
+            v = res[cur]
+            v["checked4"] = (c1 == "1", c2 == "1")
+            v["acc4"] = set(parts[1].split()[1:])
+            v["residual4"] = (rs[1:fi], rs[fi + 1:])
     return res
 
 
@@ -1599,14 +1616,18 @@ def judge(cid, src, rec, mrec, verdict, out, known_key=None):
             out["classes"][k] = out["classes"].get(k, 0) + 1
         # round 2: the same histogram with the entries LiveCheck.ds_ok accepts (theorem C03_plan_ok3_sound)
         acc3 = verdict.get("acc3", set())
+        acc4 = verdict.get("acc4", set()) if all(verdict.get("checked4", (False, False))) else set()
+        if "checked4" in verdict and not set(acc3) <= set(verdict.get("acc4", set())) and all(verdict["checked4"]):
+            out["disagreements"].append({"stream": "plan_ok4-accepts-less-than-plan_ok3", "case": src,
+                                         "detail": "acc3 %s acc4 %s" % (sorted(acc3), sorted(verdict.get("acc4", [])))})
         c3 = out.setdefault("classes3", {})
         for i, k in verdict["stmts"]:
-            k3 = ("L:" + k) if (i in acc3 and k not in ("U", "N")) else k
+            k3 = ("L:" + k) if (i in acc3 and k not in ("U", "N")) else (("C:" + k) if (i in acc4 and k not in ("U", "N")) else k)
             c3[k3] = c3.get(k3, 0) + 1
         for i, k in verdict["fns"]:
             c3[k] = c3.get(k, 0) + 1
         # round 3: syntactic shape of every entry that no theorem covers
-        unp = [(i, k) for i, k in verdict["stmts"] if not (k in ("U", "N", "N2") or (i in acc3))]
+        unp = [(i, k) for i, k in verdict["stmts"] if not (k in ("U", "N", "N2") or (i in acc3) or (i in acc4))]
         if unp:
             try:
                 shp = entry_shapes(rec["ast"])
@@ -1764,6 +1785,18 @@ def correspond(env, searching=False, model=True):
     before = out["accepted"]
     run_stream(env, "docs", docs, out, model=model, timeout=300)
     out["doc_programs"] = (len(docs), out["accepted"] - before)
+    # 1c. boundary programs (thorough tier only: each plain run hangs until the harness timeout): the pruned callee never
+    #     returns.  Expected: the analysis prunes the store, the checker puts it in class C (assignment) or leaves the first
+    #     declaration uncovered, and the pair of runs is NOT compared (resource exhaustion: time)
+    if not quick:
+        bnd = [("boundary/loop-assignment", 'do f() start\n  jasi (true) start end\n  return 1\nend\nmake u get 0\nu get f()\nshout("@1@" add to_string(2))\n'),
+               ("boundary/loop-declaration", 'do f() start\n  jasi (true) start end\n  return 1\nend\nmake u get f()\nshout("@1@" add to_string(2))\n')]
+        bout = new_out()
+        brecs = run_stream(env, "boundary", bnd, bout, model=False, timeout=25)
+        out["boundary_programs"] = dict((cid, {"plan": (brecs.get(cid) or {}).get("plan"),
+                                               "endings": dict((c, e[0][:40]) for c, e in ((brecs.get(cid) or {}).get("runs") or {}).items()),
+                                               "expected": "plan prunes the store; plain run: timeout; pruned run: ok; not compared"}) for cid, _ in bnd)
+        out["failures"] += bout["failures"]
     # 2. generated programs
     n = 600 if quick else 12000
     if searching:
@@ -1792,7 +1825,7 @@ def correspond(env, searching=False, model=True):
     covered = sum(v for k, v in out["classes"].items() if k in ("U", "N", "N2", "UF"))
     total = sum(out["classes"].values())
     c3 = out.get("classes3", {})
-    covered3 = sum(v for k, v in c3.items() if k in ("U", "N", "N2", "UF") or k.startswith("L:"))
+    covered3 = sum(v for k, v in c3.items() if k in ("U", "N", "N2", "UF") or k.startswith("L:") or k.startswith("C:"))
     ds_all = sum(v for k, v in c3.items() if k in ("DS", "L:DS"))
     samples = [{"id": cid, "program": s} for cid, s in cases[:3]]
     return {
@@ -1818,6 +1851,7 @@ def correspond(env, searching=False, model=True):
                   "flow_sensitive_dead_stores_covered_by_the_liveness_theorem": c3.get("L:DS", 0),
                   "plans_fully_covered_by_the_four_class_theorem": out.get("plans_fully_covered3", 0),
                   "programs_the_liveness_checker_rejects_structurally": out.get("liveness_structural_rejects", 0),
+                  "boundary_programs_not_compared": out.get("boundary_programs", "thorough tier only"),
                   "entries_outside_every_proved_class": out.get("entries_unproved", 0),
                   "unproved_entry_shapes": out.get("unproved_shapes", {}),
                   "unproved_entry_examples": out.get("unproved_examples", {}),
@@ -1829,6 +1863,8 @@ def correspond(env, searching=False, model=True):
                                    "DC": "store whose right-hand side contains a call and that neither the never-read class nor LiveCheck.ds_ok accepts: since round 3 only calls of USER functions (oracle only)",
                                    "L:<k>": "round 2: entry of round-1 class <k> accepted by the verified backward liveness LiveCheck.ds_ok "
                                             "(theorem C03_prune_dead_stores_sound / C03_plan_ok3_sound; all constructs incl. loops, scope exits, calls, captures, recursion)",
+                                   "C:<k>": "round 4: store whose right-hand side calls a pure, trap-free user function, accepted by LiveCheck.ds_ok_x "
+                                            "(theorem C03_prune_sound_five_classes; the panic sites the resolver rules out and fuel are not compared)",
                                    "X": "no class: broken obligation", "XF": "function live code can call: broken obligation"},
                   "model_compare": out["compare"], "warnings": out["warn"], "unreachable_tags_checked": out["tags_checked"],
                   "never_read_value_tags_checked": out["values_checked"], "panics_in_both_configurations": out["panics_both"],
